@@ -21,7 +21,7 @@ ASSUMPTIONS = ['axis arguments are in-range, non-negative, sorted and match the 
 REQUIRED_REACH = ['_tt_base:TT.norm', '_tt_base:TT.sum', '_extras:dot', '_extras:bilinear_form', '_aux_ops:bilinear_form_aux', '_tt_base:TT.reduce_dims']
 REQUIRED_COUNTS = {'history_value_checks': 200, 'norm/tensor/order1/plain': 1, 'norm/tensor/order>1/plain': 1, 'norm/operator/order1/plain': 1, 'norm/operator/order>1/plain': 1,
                    'norm/tensor/order1/tracked': 1, 'norm/tensor/order>1/tracked': 1, 'norm/operator/order1/tracked': 1, 'norm/operator/order>1/tracked': 1,
-                   'sum/tensor/all': 1, 'sum/tensor/partial': 1, 'sum/operator/all': 1, 'sum/operator/partial': 1, 'dot/full': 1, 'dot/partial': 1, 'sum/list-not-ascending': 1, 'dot/axis-not-ascending': 1,
+                   'sum/tensor/all': 1, 'sum/tensor/partial': 1, 'sum/operator/all': 1, 'sum/operator/partial': 1, 'dot/full': 1, 'dot/partial': 1, 'norm/cancelling-terms': 10, 'sum/list-not-ascending': 1, 'dot/axis-not-ascending': 1,
                    'bilinear': 1, 'exact_comparisons': 50}
 LINE_FUNCS = ['TT.norm', 'TT.sum', 'dot', 'bilinear_form_aux']
 DT = ['f64', 'f64', 'f32', 'c128']
@@ -49,6 +49,18 @@ def cases(tier, seed):
                                    'R': gens.rank_profile(rng, d, rng.choice(['rand', 'distinct', 'one']), 3), 'tracked': tracked, 'squared': squared,
                                    'dtype': DT[r % 4], 'vals': ['gauss', 'int', 'gauss', 'zero'][r % 4] if r < 8 else 'gauss',
                                    'track_idx': rng.randrange(d)})
+    # norms of operands whose terms cancel: w = (x + delta*z) - x formed by the library (ranks 2R+Rz, value delta*z), larger modes (tall unfoldings), ranks that drop to 1 inside
+    for i in range(60 if tier == 'quick' else 600):
+        d = rng.choice([2, 3, 3, 4])
+        while True:
+            N = [rng.choice((2, 3, 6, 8, 10, 12, 16)) for _ in range(d)]
+            if dn.prod(N) <= 20000:
+                break
+        R = gens.rank_profile(rng, d, rng.choice(['rand', 'distinct', 'one']), 4)
+        if d >= 3 and i % 3 == 0:
+            R = [1, 4] + [1] * (d - 1)
+        cs.append({'gen': 'norm', 'N': N, 'M': None, 'R': R, 'tracked': i % 4 == 3, 'squared': i % 2 == 1, 'dtype': ['f64', 'c128'][(i // 2) % 2], 'vals': 'gauss',
+                   'track_idx': rng.randrange(d), 'cancel': [1e-6, 1e-9, 1e-12][i % 3]})
     # sums over all subsets
     for d in range(1, 5 if tier == 'quick' else 6):
         for ttm in (False, True):
@@ -119,6 +131,12 @@ def run_norm(case, ctx, g):
     dt = dn.dtype_of(case['dtype'])
     d = len(case['N'])
     x = _mag(gens.make_tt(case['N'], case['R'], dt, case['vals'], g, M=case['M']), case, ctx)
+    if case.get('cancel'):
+        z = gens.make_tt(case['N'], [1] + [1] * (d - 1) + [1], dt, 'gauss', g)
+        delta = case['cancel']
+        y = ctx.call('TT+TT', lambda a, b: a + delta * b, x, z)
+        x = ctx.call('TT-TT', lambda a, b: a - b, y, x)
+        ctx.count('norm/cancelling-terms')
     kind = 'operator' if case['M'] else 'tensor'
     variant = 'tracked' if case['tracked'] else 'plain'
     ev = 'norm/%s/order%s/%s' % (kind, '1' if d == 1 else '>1', variant)
